@@ -25,6 +25,7 @@ def reach(prog, start):
 
 
 def check(prog, run):
+    check_named_type_identity(prog, run, "P10")
     m = prog.module(D)
     cm = prog.module(CH)
 
@@ -412,3 +413,44 @@ def check_pairing_skips(prog, run, rule_id):
             run.report(r, "%s:_iterate_matching_pairs:user-type-skipped(%s)" % (D, sample), f.where(lp),
                        "a user type named %r that exists in both schemas is never handed to the pairwise comparison: no change "
                        "inside it (removed field, removed member, retyped argument) is reported" % sample)
+
+
+def check_named_type_identity(prog, run, rule_id):
+    """A retyped position is compatible only if the named type at the bottom is the same type."""
+    from .. import dispatch
+    import re as _re
+    D_ = "py_gql.schema.differ"
+    r = run.rule(rule_id, "_is_safe_input_type_change / _is_safe_output_type_change decided for an old and a new *named* type of every kind "
+                          "(scalar, enum, input object; object, interface, union on the output side): with equal names every execution "
+                          "answers safe, with different names every execution answers unsafe, whatever the names are - an input retyped "
+                          "Int -> Float or String -> ID breaks every operation that feeds it from a variable of the old type, an output "
+                          "retyped to another scalar changes what clients receive", 24)
+    hier = dispatch.Hierarchy(prog)
+    for fname, kinds in (("_is_safe_input_type_change", ("ScalarType", "EnumType", "InputObjectType")),
+                         ("_is_safe_output_type_change", ("ScalarType", "EnumType", "ObjectType", "InterfaceType", "UnionType"))):
+        f = prog.get_func(D_, fname)
+        run.looked_at(f)
+        o, nw = f.params[:2]
+        eq_pat = _re.compile(r"^(?:%s\.name == %s\.name|%s\.name == %s\.name|%s == %s|%s == %s|%s is %s|%s is %s)$" % (o, nw, nw, o, o, nw, nw, o, o, nw, nw, o))
+        ne_pat = _re.compile(r"^(?:%s\.name != %s\.name|%s\.name != %s\.name|%s != %s|%s != %s|%s is not %s|%s is not %s)$" % (o, nw, nw, o, o, nw, nw, o, o, nw, nw, o))
+        for k1 in kinds:
+            for k2 in kinds:
+                for same in ((True, False) if k1 == k2 else (False,)):
+                    def extra(t, same=same):
+                        if eq_pat.match(t):
+                            return same
+                        if ne_pat.match(t):
+                            return not same
+                        return None
+                    d = dispatch.decide_for(hier, o, k1, dispatch.decide_for(hier, nw, k2, extra))
+                    try:
+                        got = boolx.returned_truths(f.node, d)
+                    except ValueError as e:
+                        raise AnalysisError("C20.%s: %s" % (rule_id, e))
+                    r.instance("%s(%s, %s) names %s -> %s" % (fname, k1, k2, "equal" if same else "different", sorted(map(str, got))))
+                    if got != {same}:
+                        run.report(r, "%s:%s:named-type-identity(%s)" % (D_, fname, "equal" if same else "different"), f.where(),
+                                   "%s answers %s for an old %s and a new %s whose names are %s (expected %s on every execution): a "
+                                   "position retyped to a different named type is reported as a compatible change"
+                                   % (fname, sorted(map(str, got)), k1, k2, "equal" if same else "different", same))
+                        break
